@@ -116,8 +116,11 @@ Build(a) ==
   /\ pc' = [pc EXCEPT ![a] = "built"]
   /\ UNCHANGED <<conf, lock, cur, conn, nconn, wbuf, werr, net, wire, listener, queue, reg, okset, errset, res, faults, streak>>
 
-\* a sender dials inside send(); the worker of process() dials while idle
-CanDial(a) == pc[a] = "built" \/ (a = Worker /\ conf.queue /\ pc[a] = "idle")
+\* a sender dials inside send(); the worker of process() dials while idle.  The worker exists in direct
+\* mode too (GetOneWayTcpClient always starts it): there it shares conn and the writer with the senders and
+\* must dial under the send lock -- modelled as one atomic step taken while the lock is free.
+CanDial(a) == \/ pc[a] = "built"
+              \/ (a = Worker /\ pc[a] = "idle" /\ (conf.queue \/ lock = None))
 
 ConnectOk(a) ==
   /\ CanDial(a) /\ conn = 0 /\ listener = "open"
